@@ -17,7 +17,7 @@ import traceback
 ROOT = os.path.dirname(os.path.dirname(os.path.abspath(__file__)))
 REPO = os.environ.get('PYVC_REPO', '/repo')
 
-CONTRACT_MODULES = ['assets_contract', 'assets_storage', 'assets_transport', 'assets_orderbook', 'assets_report', 'basic_grid', 'portfolio_asm', 'optimize', 'chp_helpers', 'assets_scaled', 'grid_values', 'nodal_restr', 'split_optimize', 'assets_take', 'chp_driver', 'minor_grid', 'split_setup', 'structured', 'io_output', 'take_restr', 'cost_samples', 'slp', 'date_dict']
+CONTRACT_MODULES = ['assets_contract', 'assets_storage', 'assets_transport', 'assets_orderbook', 'assets_report', 'basic_grid', 'portfolio_asm', 'optimize', 'chp_helpers', 'assets_scaled', 'grid_values', 'nodal_restr', 'split_optimize', 'assets_take', 'chp_driver', 'minor_grid', 'split_setup', 'structured', 'io_output', 'take_restr', 'cost_samples', 'slp', 'date_dict', 'time_units']
 
 
 def load_contracts():
